@@ -102,7 +102,11 @@ Theorem unblock_spec lo cfg : Inv lo cfg -> cons_idle (g_cons cfg) ->
        fst (unblock R) = set_slots R (set_hdr L PAD s1 :: rest) /\
        0 < L /\ r_head R mod r_cap R + align L 8 <= r_cap R /\
        r_head R + align L 8 <= r_tail R /\
-       (r_head R + align L 8 = r_tail R \/ exists s, In s rest /\ s_pos s = r_head R + align L 8)).
+       (r_head R + align L 8 = r_tail R \/ exists s, In s rest /\ s_pos s = r_head R + align L 8) /\
+       (* everything else the padding covers was claimed and never written *)
+       (forall x, In x rest -> s_pos x < r_head R + align L 8 -> s_len x = 0) /\
+       (s_len s1 < 0 -> L = - s_len s1) /\
+       (s_len s1 = 0 -> r_head R mod r_cap R + align L 8 < r_cap R)).
 Proof.
   intros HI Hid. cbn zeta. set (R := g_ring cfg).
   pose proof (idle_head' R _ Hid) as Hh'. fold R in Hh'.
@@ -139,7 +143,10 @@ Proof.
     rewrite Hput.
     split; [discriminate |]. split; [lia |]. split; [intros s rest0 Eq Hs; inversion Eq; subst; lia |].
     intros _. exists s1, rest, (- s_len s1). rewrite <- Nsp.
-    repeat split; auto; try lia.
+    split; [reflexivity |]. split; [lia |]. split; [reflexivity |]. split; [lia |]. split; [lia |]. split; [lia |].
+    split; [exact Hnext |]. split; [| split; [reflexivity | lia]].
+    intros x Hx Hxp. pose proof (tiled_range _ _ _ _ T2) as Rg2. rewrite Forall_forall in Rg2.
+    destruct (Rg2 x Hx). lia.
   - (* nothing written at the consumer index: scan forward *)
     destruct Bl as (B1 & B2 & B3). rewrite B1. cbn [Z.ltb Z.eqb Z.compare].
     set (limit := if r_tail R mod r_cap R >? r_head R mod r_cap R then r_tail R mod r_cap R else r_cap R).
@@ -214,9 +221,23 @@ Proof.
         rewrite Z_mod_plus_full. assumption. }
     assert (HL8 : (i - ci) mod 8 = 0) by (rewrite Zminus_mod, Hi8, Hci8; reflexivity).
     exists s1, rest, (i - ci). rewrite (align8_id _ HL8).
-    repeat split; auto; try lia.
-    right. exists s. split; [| exact Hsq].
-    destruct Hs as [<- | Hs]; [unfold q in *; lia | assumption].
+    split; [reflexivity |]. split; [lia |]. split; [reflexivity |]. split; [lia |]. split; [lia |]. split; [unfold q in *; lia |].
+    split.
+    { right. exists s. split; [| exact Hsq]. destruct Hs as [<- | Hs]; [unfold q in *; lia | assumption]. }
+    split; [| split; [lia | intros _; unfold q in *; lia]].
+    (* the slots the padding covers are blank: their length word was probed and found zero *)
+    intros x Hx Hxp.
+    pose proof (tiled_range _ _ _ _ T2) as Rg2. rewrite Forall_forall in Rg2. destruct (Rg2 x Hx) as (X1 & X2 & Gx).
+    pose proof Gx as (_ & Gx8 & _).
+    destruct (in_split_slot _ _ (or_intror Hx : In x (s1 :: rest))) as (prex & sufx & Ex).
+    assert (Exs : r_slots R = prex ++ x :: sufx) by (rewrite Es; exact Ex).
+    assert (Hxidx : s_pos x mod r_cap R = ci + (s_pos x - r_head R)) by (apply Hidx; unfold q in *; lia).
+    pose proof (word_len lo cfg HI Hh' prex x sufx Exs) as Wx. fold R in Wx. rewrite Hxidx in Wx.
+    assert (Hxp8 : (s_pos x - r_head R) mod 8 = 0).
+    { pose proof (i_h8 _ _ HI) as Hh8. fold R in Hh8. rewrite Zminus_mod. rewrite Gx8, Hh8. reflexivity. }
+    rewrite (Sz (ci + (s_pos x - r_head R))) in Wx; [lia | unfold q in *; lia |].
+    replace (ci + (s_pos x - r_head R) - (ci + 8)) with ((s_pos x - r_head R) + (-1) * 8) by lia.
+    rewrite Z_mod_plus_full. assumption.
 Qed.
 
 (* ================================================================== the read after unblock *)
@@ -312,7 +333,7 @@ Proof.
   intros HI Hid. cbn zeta. set (R := g_ring cfg). intros Hu Hlim.
   pose proof (idle_head' R _ Hid) as Hh'. fold R in Hh'.
   destruct (unblock_spec lo cfg HI Hid) as (_ & _ & _ & U4). fold R in U4.
-  destruct (U4 Hu) as (s1 & rest & L & Es & Hneg & ER1 & HL & Hfit & Hend & Hb). clear U4.
+  destruct (U4 Hu) as (s1 & rest & L & Es & Hneg & ER1 & HL & Hfit & Hend & Hb & _ & _ & _). clear U4.
   pose proof (i_cap _ _ HI) as Hc. fold R in Hc. pose proof (cap_ok_range _ Hc) as Hcr.
   pose proof (tiledR lo cfg HI Hh') as T. fold R in T. rewrite Es in T.
   pose proof (i_size _ _ HI) as Hsz. fold R in Hsz.
